@@ -94,6 +94,20 @@ def nearestF (w h : Int) (px py : Float) : Option (Int × Int) :=
   let cx := iroundF px; let cy := iroundF py
   if cx ≥ 0 ∧ cy ≥ 0 ∧ cx < w ∧ cy < h then some (cx, cy) else none
 
+/-! ### … and for point<float> (binary32 throughout: frac, weights, products, accumulator) -/
+
+def f2i32 (x : Float32) : Int := x.toInt64.toInt
+
+def accF32 (src : Int → Int → Int) (taps : List (Tap Float32)) : Float32 :=
+  taps.foldl (fun acc t => acc + Float32.ofInt (src t.x t.y) * t.w) 0
+
+def bilinearF32 (w h : Int) (src : Int → Int → Int) (px py : Float32) : Option Float32 :=
+  let p0x := f2i32 (Float32.floor px); let p0y := f2i32 (Float32.floor py)
+  if bilinearOutside w h p0x p0y then none else
+  let fx := px - Float32.ofInt p0x
+  let fy := py - Float32.ofInt p0y
+  some (accF32 src (bilinearTaps w h p0x p0y fx fy))
+
 /-! ## matrix3x2 -/
 
 structure M32 (K : Type) where
